@@ -1,6 +1,6 @@
 """Property -> rules table. Each rule callable: (prog, tier, repo) -> [RuleResult]."""
 from .rules import traversal_instances as TI
-from .rules import gate, lookup_unwrap
+from .rules import gate, lookup_unwrap, heap, witness
 
 PROPERTIES = {}
 
@@ -58,7 +58,8 @@ prop('C11', COMMON +
      'unwrap of a lookup into a ServerState map is dominated by a successful lookup of the same key in a map whose key '
      'set is included (helper summaries computed to a fixpoint; no inclusion for `errors`). STATE-WRITERS: only the '
      'server_state module mutates those maps.',
-     [TI.make(['T-gc']), lookup_unwrap.run, lookup_unwrap.run_writers],
+     [TI.make(['T-gc']), lookup_unwrap.run, lookup_unwrap.run_writers,
+      witness.run_for(['WState'], 'C11: outside samlang-services the state maps cannot be written (compile-fail witnesses)')],
      ['A-11.1: a field read by the marker family is actually passed to Heap::mark (read, not checked)',
       'A-11.2: every PStr held in parsed_modules/global_cx/errors also occurs in some checked module'])
 
@@ -71,3 +72,15 @@ prop('C15', COMMON +
 import os as _os
 for _p in _os.environ.get('SA_UNCLAIMED', 'C09,C11').split(','):
     pass
+
+prop('C17', COMMON +
+     'Rules over the MIR of samlang-heap, anchors resolved by role: PSTR-TAG (only the union\'s own impls touch its '
+     'fields; the single encoder and every decoder use the same shift and tag byte, the tag is the top byte and is not a '
+     'UTF-8 byte; every inline construction has size <= capacity), DEALLOC-OWNER (only the sweeper produces reclaimed '
+     'slots, dominated by the unmarked-module gate, the temporary arm and the not-marked edge; permanent slots are never '
+     'overwritten; mark bit set only to true by markers and cleared only by the sweeper), UNINTERN-BEFORE-OVERWRITE, '
+     'TABLE-MONOTONE (tables only grow), INTERN-DISCIPLINE (push only after both intern maps missed, paired with an '
+     'insert). Does not decide the interleaving argument (marks cleared incrementally vs. cursor wrap).',
+     [heap.run_tag, heap.run_dealloc, heap.run_unintern, heap.run_monotone, heap.run_intern,
+      witness.run_for(['WHeap'], 'C17: handles cannot be forged and heap internals cannot be touched outside the crate (compile-fail witnesses)')],
+     ['the marker marks every live string before the unmarked-module set becomes empty (C11 side, T-gc)'])
